@@ -38,6 +38,9 @@ for r in sorted(must,key=lambda r:(r['entry'].split('/')[0]!='seeded', r['entry'
     obs=', '.join('`%s`'%v for v in r.get('violations',[])[:3]) + (' …' if len(r.get('violations',[]))>3 else '')
     out.append('| %s | %s | %s | %s | %s | %s |'%(e.replace('mutants/','').replace('seeded/',''), r['property'], files, head.replace('|','/'), verdict, obs))
 out.append('')
+rep=[r for r in must if r.get('replayed')]
+out.append('Of the %d must-fail rows, %d have at least one violation whose counterexample was replayed and failed on the real (changed) code; the others end with `no-failing-input-found` (no adapter for that function, or no model).' % (len(must), len(rep)))
+out.append('')
 out.append('Behaviour-preserving edits (must raise nothing): %d runs over %d patches, %d alarms.'%(len(neut), len(set(r['entry'] for r in neut)), sum(1 for r in neut if not r['ok'])))
 bad=[r for r in neut if not r['ok']]
 for r in bad:
